@@ -526,6 +526,30 @@ impl ArtefactMedium {
                 }
             }
             "pubkey_hash" => (rng.bytes(20), vec![]),
+            "sig_der" | "sig_der_hex" | "sighash_sig" if rng.chance(1, 4) => {
+                // hand-made DER: integer length bytes 0 / 1 / 0x20 / 0x21 / 0x22 with matching or mismatching content,
+                // leading zeros, high bits, wrong outer length
+                let int = |rng: &mut Rng| -> Vec<u8> {
+                    let l = *rng.pick(&[0usize, 1, 0x20, 0x21, 0x21, 0x22]);
+                    let mut c = rng.bytes(l);
+                    if l > 0 && rng.chance(1, 2) {
+                        c[0] = *rng.pick(&[0x00u8, 0x80, 0x7f, 0xff]);
+                    }
+                    let declared = if rng.chance(1, 6) { *rng.pick(&[0usize, 0x21, 0x7f, 0x80, 0xff]) } else { l };
+                    let mut v = vec![0x02, declared as u8];
+                    v.extend(c);
+                    v
+                };
+                let mut body = int(rng);
+                body.extend(int(rng));
+                let outer = if rng.chance(1, 6) { *rng.pick(&[0usize, 0x80, 0x81, 0xff, body.len() + 1]) } else { body.len() };
+                let mut d = vec![0x30, outer as u8];
+                d.extend(body);
+                if kind == "sighash_sig" {
+                    d.push(*rng.pick(&crate::scen_txhist::FLAGS));
+                }
+                (d, vec![1, 3])
+            }
             "sig_der" | "sig_der_hex" | "sig_compact" | "sighash_sig" | "bsm_sig_compact" => {
                 let msg = rng.bytes(20);
                 let key = rand_key(rng);
@@ -812,7 +836,7 @@ impl Scenario for ArtefactMedium {
             let json_kind = kind.starts_with("json_") || kind == "tx_json";
             let token_kind = matches!(kind, "script_asm" | "template_asm" | "template_match" | "xprv_path" | "xpub_path");
             let f = if json_kind && rng.chance(1, 2) {
-                json!({"f": "json_value", "k": rng.below(12), "with": *rng.pick(&["1", "-1", "0", "1e400", "18446744073709551616", "4294967296", "null", "true", "[]", "{}", "\"\"", "\"zz\"", "\"00\"", "[1,2,3]", "{\"a\":1}", "1.5", "\"\u{e9}\u{20ac}\"", "\"0\u{e9}1\"", "\"\u{20ac}0\"", "\"z\u{e9}0\"", "\"00\u{e9}\"", "\"0\\u00e91\"", "99999999999999999999999999999999999999"])})
+                json!({"f": "json_value", "k": rng.below(12), "with": *rng.pick(&["1", "-1", "0", "1e400", "18446744073709551616", "4294967296", "null", "true", "[]", "{}", "\"\"", "\"zz\"", "\"00\"", "\"aaaaaaaaaaaaaaaaaaaaaaaaaaaaaaaaaaaaaaaaaaaaaaaaaaaaaaaaaaaaaaa\"", "\"aaaaaaaaaaaaaaaaaaaaaaaaaaaaaaaaaaaaaaaaaaaaaaaaaaaaaaaaaaaaaaaaa\"", "\"0\"", "\"abc\"", "[1,2,3]", "{\"a\":1}", "1.5", "\"\u{e9}\u{20ac}\"", "\"0\u{e9}1\"", "\"\u{20ac}0\"", "\"z\u{e9}0\"", "\"00\u{e9}\"", "\"0\\u00e91\"", "99999999999999999999999999999999999999"])})
             } else if token_kind && rng.chance(1, 2) {
                 json!({"f": "token", "k": rng.below(16), "insert": rng.chance(1, 2), "with": *rng.pick(&["", "", "OP_PUSH", "OP_PUSHDATA1", "OP_PUSHDATA2", "OP_PUSHDATA4", "OP_PUSH 4294967295 00", "OP_PUSHDATA4 4294967296 00", "OP_PUSHDATA4 1073741824 00", "OP_PUSHDATA4 4294967295 00", "OP_PUSHDATA2 65535 00", "OP_PUSHDATA1 255 00", "OP_PUSH 75 00", "OP_PUSH 0 ", "OP_DATA20=", "OP_DATA==5", "OP_DATA=4294967296", "OP_DATA>=18446744073709551616", "OP_DATA<", "OP_DATA=", "OP_DATA=-1", "OP_DATA>", "0x", "zz", "é€", "a€", "OP_é", "17", "-1", "2147483648", "2147483647'", "4294967295", "4294967296", "2147483648h", "99999999999999999999", "'", "h", "/", "m", "m/", "0''", "OP_IF", "OP_ENDIF", "OP_ELSE", "\n", "\r", "\t"])})
             } else { match rng.weighted(&[22, 10, 6, 26, 8, 3, 6, 2, 3, 4, 3]) {
